@@ -17,30 +17,40 @@ RELATED = {
 
 
 def main():
-    only = [a for a in sys.argv[1:] if not a.startswith('--')]
+    # --scratch <dir>: run against a scratch worktree of /repo (its own work and evidence directories) so that /repo and
+    # /verif/evidence stay untouched and the matrix can run while other work goes on
+    argv = sys.argv[1:]
+    REPO = "/repo"
+    env = dict(os.environ)
+    if "--scratch" in argv:
+        i = argv.index("--scratch")
+        REPO = argv[i + 1]
+        del argv[i:i + 2]
+        env.update(VERIF_REPO=REPO, VERIF_WORK=REPO.rstrip("/") + "-work", VERIF_EVIDENCE=REPO.rstrip("/") + "-evidence")
+    only = [a for a in argv if not a.startswith('--')]
     table_only = '--table-only' in sys.argv
     rows = []
     seeds = sorted(d for d in os.listdir(os.path.join(HERE, "seeded")) if os.path.isdir(os.path.join(HERE, "seeded", d)))
-    subprocess.run(["git", "-C", "/repo", "diff", "--quiet"], check=True)
+    subprocess.run(["git", "-C", REPO, "diff", "--quiet"], check=True)
     for sid in seeds:
         if table_only or (only and sid not in only):
             continue
         sdir = os.path.join(HERE, "seeded", sid)
         meta = json.load(open(os.path.join(sdir, "meta.json")))
         prop = meta["property"]
-        r = subprocess.run(["git", "-C", "/repo", "apply", os.path.join(sdir, "patch.diff")])
+        r = subprocess.run(["git", "-C", REPO, "apply", os.path.join(sdir, "patch.diff")])
         if r.returncode != 0:
             rows.append((sid, prop, "patch no longer applies", []))
             continue
         det = []
         try:
             for c in [prop] + RELATED.get(prop, []):
-                out = subprocess.run([os.path.join(HERE, "check"), c], cwd=HERE, capture_output=True, text=True)
+                out = subprocess.run([os.path.join(HERE, "check"), c], cwd=HERE, capture_output=True, text=True, env=env)
                 keys = re.findall(r"^    key : (.*)$", out.stdout, re.M)
                 if out.returncode != 0 and keys:
                     det.append({"check": c, "keys": keys[:6]})
         finally:
-            subprocess.run(["git", "-C", "/repo", "checkout", "--", "."])
+            subprocess.run(["git", "-C", REPO, "checkout", "--", "."])
         meta["detected_by"] = det
         json.dump(meta, open(os.path.join(sdir, "meta.json"), "w"), indent=1)
         rows.append((sid, prop, "DETECTED" if det else "missed", det))
@@ -57,7 +67,7 @@ def main():
             k = "; ".join("%s: `%s`" % (d["check"], d["keys"][0][:110]) for d in det)
             f.write("| %s | %s | %s | %s |\n" % (sid, prop, verdict, k))
     # evidence/ was rewritten while seeds were applied: re-run every claimed check on the restored tree
-    for ev in sorted(glob.glob(os.path.join(HERE, "evidence", "C*.json"))):
+    for ev in sorted(glob.glob(os.path.join(HERE, "evidence", "C*.json"))) if REPO == "/repo" else []:
         c = os.path.basename(ev)[:-5]
         r = subprocess.run([os.path.join(HERE, "check"), c], cwd=HERE, capture_output=True, text=True)
         if r.returncode != 0:
